@@ -95,6 +95,7 @@ type c10Fault struct {
 	exchange int
 	kind     string // get-error | get-notexist | get-strict | get-lenient | set-error | del-error | origin-*
 	desc     string
+	late     bool // the fault hit a store operation AFTER the origin had been called in that exchange (e.g. a re-read before a write-back)
 }
 
 func runC10(x *mc.X) {
@@ -137,6 +138,7 @@ func c10Run(x *mc.X, hist c10Hist, logger string, replay []int, record *[]int) (
 	w := world.New(world.Opt{Logger: logger})
 	defer w.Close()
 	exchange := 0
+	originCalls := 0 // origin calls so far in the current exchange
 	ri := 0
 	decide := func(label string, opts []string) int {
 		if replay != nil {
@@ -160,12 +162,12 @@ func c10Run(x *mc.X, hist c10Hist, logger string, replay []int, record *[]int) (
 		switch op.Kind {
 		case "set":
 			if decide("set "+short(op.Key), []string{"ok", "error"}) == 1 {
-				faults = append(faults, c10Fault{exchange, "set-error", op.Key})
+				faults = append(faults, c10Fault{exchange, "set-error", op.Key, originCalls > 0})
 				return true, nil, world.ErrInjected
 			}
 		case "del":
 			if decide("del "+short(op.Key), []string{"ok", "error"}) == 1 {
-				faults = append(faults, c10Fault{exchange, "del-error", op.Key})
+				faults = append(faults, c10Fault{exchange, "del-error", op.Key, originCalls > 0})
 				return true, nil, world.ErrInjected
 			}
 		case "get":
@@ -236,10 +238,10 @@ func c10Run(x *mc.X, hist c10Hist, logger string, replay []int, record *[]int) (
 			case 0:
 			case 1:
 				x.Trace[len(x.Trace)-1].Desc = "error"
-				faults = append(faults, c10Fault{exchange, "get-error", op.Key})
+				faults = append(faults, c10Fault{exchange, "get-error", op.Key, originCalls > 0})
 				return true, nil, world.ErrInjected
 			case 2:
-				faults = append(faults, c10Fault{exchange, "get-notexist", op.Key})
+				faults = append(faults, c10Fault{exchange, "get-notexist", op.Key, originCalls > 0})
 				return true, nil, fmt.Errorf("injected: %w", errNotExist())
 			default:
 				kind, val := materialise(i)
@@ -247,7 +249,7 @@ func c10Run(x *mc.X, hist c10Hist, logger string, replay []int, record *[]int) (
 				if replay == nil {
 					x.Trace[len(x.Trace)-1].Desc = d
 				}
-				faults = append(faults, c10Fault{exchange, kind, op.Key + " <- " + d})
+				faults = append(faults, c10Fault{exchange, kind, op.Key + " <- " + d, originCalls > 0})
 				return true, val, nil
 			}
 		}
@@ -256,14 +258,16 @@ func c10Run(x *mc.X, hist c10Hist, logger string, replay []int, record *[]int) (
 
 	for si, st := range hist.steps {
 		exchange = si
+		originCalls = 0
 		world.Advance(secs(st.adv))
 		originFault := ""
 		answerFn(w, func(o *world.Origin, c *world.Call) (*http.Response, error) {
+			originCalls++
 			of := []string{"ok", "transport-error", "503", "no-date", "invalid-date", "body-error@0", "body-error@mid", "nil-header-200", "nil-header-map"}
 			i := decide(fmt.Sprintf("origin call %d", c.Seq), of)
 			if i != 0 {
 				originFault = of[i]
-				faults = append(faults, c10Fault{si, "origin-" + of[i], c.URL})
+				faults = append(faults, c10Fault{si, "origin-" + of[i], c.URL, false})
 			}
 			kind, ccv, _ := strings.Cut(st.origin, ":")
 			cond := c.Header.Get("If-None-Match") != "" || c.Header.Get("If-Modified-Since") != ""
@@ -374,8 +378,8 @@ func c10Run(x *mc.X, hist c10Hist, logger string, replay []int, record *[]int) (
 		// store operation errors and undecodable values in this exchange: the origin serves the request
 		strict := false
 		for _, f := range newFaults {
-			if f.kind == "get-error" || f.kind == "get-strict" {
-				strict = true
+			if (f.kind == "get-error" || f.kind == "get-strict") && !f.late {
+				strict = true // (a read that fails after the origin was asked cannot turn the exchange into a miss any more)
 			}
 		}
 		oic := len(st.hdr) == 2 && strings.Contains(st.hdr[1], "only-if-cached")
